@@ -1018,6 +1018,16 @@ func (x *Exec) pvcHelper(s *State, fr *Frame, name string, args []Value, call *a
 		x.oblige(s, "assert", fmt.Sprintf("assert@%s", shortText(exprText(x.w.Fset, call.Args[0]))), g, call.Pos(), exprText(x.w.Fset, call.Args[0]))
 		s.assume(g)
 		return &TupleV{}
+	case "pvc_suffix":
+		// a is the tail of b: same memory, a ends where b ends (an empty a is a tail of
+		// anything; a nil b has only the empty tail)
+		a, ok1 := args[0].(*SliceV)
+		b, ok2 := args[1].(*SliceV)
+		if !ok1 || !ok2 {
+			unsup("pvc_suffix on opaque slices")
+		}
+		same := And(Eq(a.Rgn, b.Rgn), Eq(Add64(a.Off, a.Len), Add64(b.Off, b.Len)), Sle(a.Len, b.Len))
+		return &Scalar{T: x.ctx.Share(Or(Eq(a.Len, I64(0)), same))}
 	case "pvc_assume":
 		s.assume(args[0].(*Scalar).T)
 		x.note("assumed", "explicit assume in ghost code: "+exprText(x.w.Fset, call.Args[0]))
